@@ -74,9 +74,24 @@ def tree_edges(draw, n, relabel=True):
 
 @st.composite
 def graph_edges(draw, n, kind):
-    """kind: tree | chain | star | cyclic | forest"""
+    """kind: tree | chain | star | cyclic | forest | ring-forest"""
     if n <= 1:
         return []
+    if kind == "ring-forest":
+        # several components, some of them rings (possibly with a tail): disconnected, yet the number of bonds may
+        # equal n-1 or more
+        perm = list(draw(st.permutations(list(range(n)))))
+        edges, k = [], 0
+        while k < n:
+            size = draw(st.integers(1, max(1, min(n - k, 6))))
+            comp = perm[k:k + size]
+            for a, b in zip(comp, comp[1:]):
+                edges.append([min(a, b), max(a, b)])
+            if size >= 3 and draw(st.booleans()):
+                j = draw(st.integers(2, size - 1))
+                edges.append([min(comp[0], comp[j]), max(comp[0], comp[j])])
+            k += size
+        return edges
     if kind == "chain":
         perm = draw(st.permutations(list(range(n))))
         return [[min(perm[k], perm[k + 1]), max(perm[k], perm[k + 1])] for k in range(n - 1)]
